@@ -191,6 +191,19 @@ def eval_point(pt, R):
                 'a true frequency (+-1 bin) does not dominate the bins away from all true frequencies')
     R.check(S.shape == sref.shape and close(S, sref, rt, (1e-5 if single else 1e-12) * sref[0]), 'singular_values', feats, pt, S, sref,
             'returned singular values are not those of the forward-backward data matrix of order P', err=relerr(S, sref, 1e-12) if S.shape == sref.shape else None)
+    if kind == 'cx' and K == 1 and int(pt['bins'][0]) % 3 == 0 and not single and N in (2 * P, 33):
+        # automatic subspace selection (AIC / MDL rule): the returned singular values are still those of the data matrix
+        xx = x if meth == 'ev' else x + EV_EPS * A.eta(N, True)
+        sref2 = np.linalg.svd(rar.fb_matrix(xx, P), compute_uv=False)
+        for crit in ('aic', 'mdl'):
+            R.calls()
+            try:
+                _p2, S2 = eigenfre.eigen(xx, P, NSIG=None, method=meth, NFFT=nf, criteria=crit)
+                S2 = np.asarray(S2)
+                R.check(S2.shape == sref2.shape and close(S2, sref2, 1e-9, 1e-12 * sref2[0]), 'singular_values', dict(feats, selection=crit), pt, S2, sref2,
+                        'with the %s rule the returned singular values are not those of the forward-backward data matrix' % crit.upper())
+            except Exception as e:
+                R.viol('singular_values', dict(feats, selection=crit, exc=type(e).__name__), pt, repr(e), None, 'eigen with automatic subspace selection raised')
     if meth == 'music':      # exactly noiseless record: exactly K non-negligible singular values
         R.check(np.all(np.diff(S) <= (1e-6 if single else 1e-12) * S[0]) and int(np.sum(S > neg * S[0])) == K, 'rank', feats, pt, S, K,
                 'singular values not in non-increasing order or not exactly K non-negligible ones')
